@@ -1,5 +1,200 @@
-/- Driver for C01 (stub until the property's model is written). -/
+/- Driver for C01: replays the real qmail-queue's system-call traces (recorded under qsim) through
+   the acceptor `QueueInject.accept`, and evaluates the property oracle on the concrete crash
+   states the harness reports. -/
 import Drv.Util
-open Drv
-def handle (st : Stats) (_line : String) : IO Stats := return { st with cases := st.cases + 1 }
-def main : IO Unit := runDriver handle
+import Nq.QueueInject
+
+open Nq Nq.QueueInject Drv
+
+structure Case where
+  p : Params := { msg := [], env := [], received := [], hdr := [] }
+  hdrline : String := ""
+  st : Option St := some {}
+  rejected : String := ""
+  messFd : String := "?"
+  intdFd : String := "?"
+  ino : String := "?"
+  pid : String := ""
+  exit : Nat := 999
+  fault : Bool := false
+  nev : Nat := 0
+  kinds : List String := []
+
+def kvOf (toks : List String) (k : String) : String :=
+  match toks.find? (fun t => t.startsWith (k ++ "=")) with
+  | some t => (t.drop (k.length + 1)).toString
+  | none => ""
+
+def parseEv (c : Case) (toks : List String) : Option Ev × Case :=
+  let ok := fun (r : String) => r != "-1" && r != "0e"
+  match toks with
+  | ["T", _, "alarm", n] => (some (.alarm n.toNat!), c)
+  | ["T", _, "exit", code] => (some (.exit code.toNat!), c)
+  | "T" :: _ :: _ :: "open_excl" :: path :: "->" :: r :: rest =>
+    if path.startsWith "pid/" then
+      let parts := path.splitOn "."
+      let seq := (parts.getLast?.getD "0").toNat!
+      let good := path.startsWith ("pid/" ++ c.pid ++ ".")
+      if !good then (none, c) else
+      (some (.openPid seq (r != "-1")), if r != "-1" then { c with messFd := r, ino := kvOf rest "ino" } else c)
+    else if path == "intd/" ++ c.ino then
+      (some (.openIntd (r != "-1")), if r != "-1" then { c with intdFd := r } else c)
+    else (none, c)
+  | "T" :: _ :: _ :: "fstat" :: fd :: "->" :: r :: _ => if fd == c.messFd then (some (.fstatPid (r != "-1")), c) else (none, c)
+  | "T" :: _ :: _ :: "link" :: a :: b :: "->" :: r :: _ =>
+    let n := c.ino.toNat!
+    if a.startsWith "pid/" && b == s!"mess/{n % Gen.auto_split}/{n}" then (some (.linkMess (r != "-1")), c)
+    else if a == "intd/" ++ c.ino && b == "todo/" ++ c.ino then (some (.linkTodo (r != "-1")), c)
+    else (none, c)
+  | "T" :: _ :: _ :: "unlink" :: a :: "->" :: r :: _ =>
+    let n := c.ino.toNat!
+    if a.startsWith "pid/" then (some (.unlinkPid (r != "-1")), c)
+    else if a == "intd/" ++ c.ino then (some (.unlinkF .intd (r != "-1")), c)
+    else if a == s!"mess/{n % Gen.auto_split}/{n}" then (some (.unlinkF .mess (r != "-1")), c)
+    else (none, c)
+  | "T" :: _ :: _ :: "read" :: fd :: "->" :: r :: rest =>
+    if r == "-1" then (some (.readErr fd.toNat! (rest.head? == some "e4")), c) else (some (.read fd.toNat! r.toNat!), c)
+  | "T" :: _ :: _ :: "write" :: fd :: rest =>
+    let f := if fd == c.messFd then some FileId.mess else if fd == c.intdFd then some FileId.intd else none
+    match f with
+    | none => (none, c)
+    | some f =>
+      if rest.contains "-1" then (some (.writeErr f (rest.contains "e4")), c)
+      else match unhex (kvOf rest "data") with
+        | some bs => (some (.write f bs), c)
+        | none => (none, c)
+  | "T" :: _ :: _ :: "fsync" :: fd :: "->" :: r :: _ | "T" :: _ :: _ :: "fsync" :: fd :: _ :: "->" :: r :: _ =>
+    let f := if fd == c.messFd then some FileId.mess else if fd == c.intdFd then some FileId.intd else none
+    match f with | some f => (some (.fsync f (r != "-1")), c) | none => (none, c)
+  | "T" :: _ :: _ :: "ftruncate" :: fd :: rest =>
+    let f := if fd == c.messFd then some FileId.mess else if fd == c.intdFd then some FileId.intd else none
+    match f with | some f => (some (.ftrunc f (!rest.contains "-1")), c) | none => (none, c)
+  | "T" :: _ :: _ :: "open_write" :: "lock/trigger" :: "->" :: r :: _ => (some (.trigOpen (r != "-1")), c)
+  | "T" :: _ :: _ :: "write_fifo" :: _ => (some .trigWrite, c)
+  | "T" :: _ :: _ :: "close_fifo" :: _ => (some .trigClose, c)
+  | _ => (none, c)
+
+def evKind : Ev → String
+  | .alarm _ => "alarm" | .openPid _ ok => if ok then "openPid" else "openPid!" | .fstatPid ok => if ok then "fstat" else "fstat!"
+  | .linkMess ok => if ok then "linkMess" else "linkMess!" | .unlinkPid ok => if ok then "unlinkPid" else "unlinkPid!"
+  | .read _ _ => "read" | .readErr _ i => if i then "readEINTR" else "read!" | .write _ _ => "write"
+  | .writeErr _ i => if i then "writeEINTR" else "write!" | .fsync _ ok => if ok then "fsync" else "fsync!"
+  | .openIntd ok => if ok then "openIntd" else "openIntd!" | .linkTodo ok => if ok then "linkTodo" else "linkTodo!"
+  | .ftrunc _ _ => "ftrunc" | .unlinkF _ ok => if ok then "unlinkF" else "unlinkF!" | .trigOpen ok => if ok then "trigOpen" else "trigOpen!"
+  | .trigWrite => "trigWrite" | .trigClose => "trigClose" | .exit c => s!"exit{c}"
+
+def hash16 (b : Bytes) : String :=
+  let h := hashBytes b
+  let digs := (List.range 16).map (fun i => hexDigit ((h >>> (60 - 4 * i.toUInt64)) &&& 15).toUInt8)
+  String.ofList digs
+
+/-- the property, on one concrete crash state reported by the harness -/
+def oracleState (c : Case) (k : Nat) (ncalls : Nat) (code : String) (toks : List String) : Option String :=
+  let allowed := ["-", "p", "pm", "m", "mi", "mit"]
+  if !allowed.contains code then some s!"leftover state {code} is not one the daemon collects"
+  else
+    let hasT := code.contains 't'
+    let sc := scanDoc c.p.env
+    let final := k == ncalls + 1
+    if hasT then
+      if sc.1 != .done then some "todo visible although the envelope is not well-formed"
+      else
+        let expMess := c.p.received ++ c.p.msg
+        let expTodo := c.p.hdr ++ sc.2
+        if kvOf toks "mess" != s!"{expMess.length}:{hash16 expMess}" then some "todo visible with an incomplete or wrong message file"
+        else if kvOf toks "todo" != s!"{expTodo.length}:{hash16 expTodo}" then some "todo visible with an incomplete or wrong envelope"
+        else if kvOf toks "named" != "1" then some "file name differs from inode number"
+        else if final && c.exit != 0 then some "failure reported but the message is visible to the daemon"
+        else none
+    else if final && c.exit == 0 then some "success reported but no todo entry is visible"
+    else none
+
+structure DState where
+  st : Stats := {}
+  cur : Case := {}
+  ncalls : Nat := 0
+  bad : Bool := false
+
+def finishCase (d : DState) : IO DState := do
+  let c := d.cur
+  let mut st := d.st
+  -- exit code vs the documented envelope verdict (no injected fault)
+  if !c.fault then
+    let sc := (scanDoc c.p.env).1
+    let want := match sc with | .done => 0 | .bad => 91 | .long => 11 | _ => 54
+    if c.exit != want then
+      IO.println s!"ORACLE {c.hdrline} exit={c.exit} documented={want}"
+      st := { st with oracle := st.oracle + 1 }
+  return { d with st := st }
+
+def handle (d : DState) (line : String) : IO DState := do
+  let toks := fields line
+  match toks with
+  | "CASE" :: rest =>
+    let m := (unhex (kvOf rest "msg")).getD []
+    let e := (unhex (kvOf rest "env")).getD []
+    let r := (unhex (kvOf rest "received")).getD []
+    let uid := kvOf rest "uid"
+    let pid := kvOf rest "pid"
+    let hdr := [117] ++ uid.toUTF8.toList ++ [0, 112] ++ pid.toUTF8.toList ++ [0]
+    let flt := kvOf rest "fault"
+    let hl := s!"chunk={kvOf rest "chunk"} msg={kvOf rest "msg"} env={kvOf rest "env"} fault={flt}"
+    let h := hashBytes (m ++ [255] ++ e ++ flt.toUTF8.toList)
+    let fresh := !d.st.seen.contains h
+    let st := { d.st with cases := d.st.cases + 1, seen := d.st.seen.insert h,
+                          nontrivial := d.st.nontrivial + (if fresh then 1 else 0) }
+    if fresh && st.samples < 3 && m.length < 40 then IO.println s!"SAMPLE {hl}"
+    let st := if fresh && st.samples < 3 && m.length < 40 then { st with samples := st.samples + 1 } else st
+    return { d with st := st, cur := { p := { msg := m, env := e, received := r, hdr := hdr }, hdrline := hl, pid := pid,
+                                        fault := !flt.startsWith "0:" }, bad := false }
+  | "T" :: _ =>
+    if d.bad then return d
+    let c := d.cur
+    if toks.contains "CRASH" || toks.contains "signal" then return d
+    let (ev, c) := parseEv c toks
+    match ev with
+    | none =>
+      IO.println s!"DISAGREE {c.hdrline} unparsed_or_misnamed_call={line.trimAscii.toString.take 160}"
+      return { d with st := { d.st with disagree := d.st.disagree + 1 }, cur := c, bad := true }
+    | some ev =>
+      let st := d.st.bump (evKind ev)
+      match c.st with
+      | none => return { d with cur := c, st := st }
+      | some s =>
+        match accept c.p s ev with
+        | some s' => return { d with cur := { c with st := some s', nev := c.nev + 1 }, st := st }
+        | none =>
+          IO.println s!"DISAGREE {c.hdrline} event#{c.nev + 1}={evKind ev} rejected_at_pc={repr s.pc} line={line.trimAscii.toString.take 120}"
+          return { d with cur := { c with st := none }, st := { st with disagree := st.disagree + 1 }, bad := true }
+  | "EXIT" :: code :: rest =>
+    let c := { d.cur with exit := code.toNat! }
+    let mut st := d.st
+    -- the trace must end in an `exited` control point
+    match c.st with
+    | some s => match s.pc with
+      | .exited _ => pure ()
+      | _ => if !d.bad then
+               IO.println s!"DISAGREE {c.hdrline} trace ended at pc={repr s.pc}"
+               st := { st with disagree := st.disagree + 1 }
+    | none => pure ()
+    return { d with cur := c, st := st, ncalls := (kvOf rest "ncalls").toNat! }
+  | "S" :: k :: mode :: code :: rest =>
+    let st := { d.st with counters := d.st.counters }
+    match oracleState d.cur k.toNat! d.ncalls code rest with
+    | none => return { d with st := (st.bump "crash_states") }
+    | some why =>
+      IO.println s!"ORACLE {d.cur.hdrline} crash_before_call={k} resolution={mode} state={code} why={why.replace " " "_"}"
+      return { d with st := { (st.bump "crash_states") with oracle := st.oracle + 1 } }
+  | "END" :: _ => finishCase d
+  | _ => return d
+
+partial def loop2 (h : IO.FS.Stream) (d : DState) : IO DState := do
+  let line ← h.getLine
+  if line.isEmpty then return d
+  let d' ← handle d line
+  loop2 h d'
+
+def main : IO Unit := do
+  let stdin ← IO.getStdin
+  let d ← loop2 stdin {}
+  IO.println s!"STATS {d.st.json}"
